@@ -53,6 +53,8 @@ fn syntax(t: &[String]) -> String {
         Some("slice") => format!("[]{}", syntax(&t[1..])),
         Some("sptr") => format!("&[]{}", syntax(&t[1..])),
         Some("view") => syntax(&t[1..]),
+        // only in the signature of an extern function: an array without length
+        Some("endless") => format!("[]{}", syntax(&t[1..])),
         Some("struct") | Some("word") => t[1].clone(),
         Some(p) => p.to_string(),
         None => "?".to_string(),
@@ -121,6 +123,9 @@ pub fn render(c: &Cell) -> Rendered {
         params.push(format!("sp2: {}", syntax(&c.et)));
     }
     let mut ret: Option<String> = None;
+    if c.ctx == "argxp" {
+        lines.push(format!("extern fn callee(q: {});", syntax(&c.tt)));
+    }
     if c.ctx == "arg" || c.ctx == "argmiss" {
         match c.x.as_str() {
             "elem" => lines.push(format!("fn sink_v(v: []{});", syntax(&c.tt))),
